@@ -49,14 +49,18 @@ class VfsWorld:
         if h is not None:
             h(I, desc)
 
+    @staticmethod
+    def _nm(p):
+        return ''.join('%%%02x' % (ord(c) - 0xDC00) if 0xDC80 <= ord(c) <= 0xDCFF else c for c in p)
+
     def sym_kind(self, e, p):
-        return z3.BitVec('kind_%d_%s' % (e, p), 2)
+        return z3.BitVec('kind_%d_%s' % (e, self._nm(p)), 2)
 
     def sym_mtime(self, e, p):
-        return z3.BitVec('mtime_%d_%s' % (e, p), 64)
+        return z3.BitVec('mtime_%d_%s' % (e, self._nm(p)), 64)
 
     def sym_chunk(self, e, p, j):
-        return z3.BitVec('chunk_%d_%s_%d' % (e, p, j), 32)
+        return z3.BitVec('chunk_%d_%s_%d' % (e, self._nm(p), j), 32)
 
     def constraints(self, epochs):
         cs = []
